@@ -13,6 +13,7 @@ import (
 	"sync"
 
 	"github.com/protolambda/ztyp/tree"
+	"github.com/protolambda/ztyp/view"
 )
 
 func init() {
@@ -291,8 +292,16 @@ func execConc(st *State, a []string) string {
 	t := p.ty()
 	v := p.val()
 
+	isDefault := v.String() == DefaultVal(t).String()
 	build := func() *handle {
-		vw, err := construct(t, v)
+		var vw view.View
+		var err error
+		if isDefault {
+			// the type's default: subtrees filled with one shared node (both children identical)
+			vw = typeDef(t).Default(nil)
+		} else {
+			vw, err = construct(t, v)
+		}
 		if err != nil {
 			panic(err)
 		}
@@ -396,6 +405,18 @@ func genC14(g *Gen, tier string, w *bufio.Writer) {
 		for _, mode := range []string{"pkg+app", "own+app"} {
 			v := g.RandVal(lt, 3)
 			fmt.Fprintf(w, "conc %d %d %s %s %s\n", 4+g.Intn(12), g.U64()%1000000, mode, lt, v)
+		}
+	}
+	// forks of a type DEFAULT: default-filled vectors share one node per level (a pair whose two
+	// children are the same node), every fork hashes beside / through them
+	b32 := &Ty{Kind: KBytesN, N: 32}
+	for _, dt := range []*Ty{
+		{Kind: KContainer, Fields: []*Ty{{Kind: KVector, N: 16, Elem: u64}, u64, {Kind: KVector, N: 8, Elem: b32}}},
+		{Kind: KVector, N: 8, Elem: &Ty{Kind: KContainer, Fields: []*Ty{u64, {Kind: KVector, N: 16, Elem: u64}}}},
+		{Kind: KContainer, Fields: []*Ty{{Kind: KBitvector, N: 2048}, {Kind: KVector, N: 64, Elem: &Ty{Kind: KUint, N: 2}}, {Kind: KList, N: 1 << 20, Elem: u64}}},
+	} {
+		for _, mode := range []string{"pkg", "own"} {
+			fmt.Fprintf(w, "conc %d %d %s %s %s\n", 4+g.Intn(12), g.U64()%1000000, mode, dt, DefaultVal(dt))
 		}
 	}
 	n := tierN(tier, 60, 1500)
